@@ -97,12 +97,43 @@ def _join_pool(bi, li, frag):
     return r is None or isinstance(r, str)
 
 
+def _child_url_entry(bi, li, entry):
+    """The entry points through which scraped / plug-in supplied links reach the URL table log and skip what does not parse."""
+    from harness import stubs
+    from harness.common import nosym, make_record
+    from wpull.pipeline.session import ItemSession
+    base, link = _BASES[bi], _LINKS[li]
+    if not base.startswith(('http', 'ftp')):
+        base = 'http://example.com/'
+    with nosym():
+        table = stubs.StubTable()
+        f = stubs.Factory()
+        f['URLTable'] = table
+        import types
+        app = types.SimpleNamespace(factory=f, root_path='.', args=None)
+        item = ItemSession(app, make_record(base, level=1))
+    if entry == 0:
+        item.add_child_url(link)
+    elif entry == 1:
+        item.add_child_url(link, inline=True, level=3)
+    else:
+        item.add_url(link)
+    item.finish()
+    hit('queued' if len(table.rows) else 'dropped')
+    return all(isinstance(u, str) for u in table.rows)
+
+
 def _join_free(bi, link):
     r = urljoin_safe(_BASES[bi], link)
     return r is None or isinstance(r, str)
 
 
 HARNESSES = [
+    H('child_url_entry', '_child_url_entry', 'bi: int, li: int, entry: int', pre=['0 <= bi < %d and 0 <= li < %d and 0 <= entry <= 2' % (len(_BASES), len(_LINKS))],
+      timeout={'quick': 200, 'thorough': 400}, samples=[(0, 0, 0), (0, 5, 1), (1, 1, 2)], need=['queued', 'dropped'],
+      funcs=['wpull/pipeline/session.py:ItemSession.add_child_url', 'wpull/pipeline/session.py:ItemSession.add_url', 'wpull/url.py:parse_url_or_log'],
+      doc='every link of the hostile pool handed to ItemSession.add_child_url / add_url (the logging entry points for scraped and '
+          'plug-in supplied links) is queued or dropped - nothing is raised'),
     H('structured', '_structured', 'si: int, ai: int, pi: int, qi: int, enc: int',
       pre=['0 <= si < %d and 0 <= ai < %d and 0 <= pi < %d and 0 <= qi < %d and 0 <= enc <= 2' % (
           len(_SCHEMES), len(_AUTH), len(_PATHS), len(_QUERIES))],
